@@ -67,3 +67,15 @@ CASES += [
     {"name": "exciton dephasings read the eigenvector matrix transposed", "kind": "mutant", "rule": "C12-I", "edits": [
         ("quantarhei/builders/aggregate_base.py", "                    Dr_a[ii] += (self.Dr[nn,nn]**2)*abs(SS[nn,ii])**4", "                    Dr_a[ii] += (self.Dr[nn,nn]**2)*abs(SS[ii,nn])**4", 1)]},
 ]
+
+_AB12 = "quantarhei/builders/aggregate_base.py"
+CASES += [
+    {"name": "cross term of the widths reads the transposed eigenvector element (seeded change of round 6)", "kind": "mutant", "rule": "C12-I", "edits": [
+        (_AB12, "(SS[nn_2x, aa_2x]**2)*(SS[k_1x, alpha]**2)", "(SS[nn_2x, aa_2x]**2)*(SS[alpha, k_1x]**2)", 1)]},
+    {"name": "two-exciton coefficient of the cross term transposed", "kind": "mutant", "rule": "C12-I", "edits": [
+        (_AB12, "(SS[nn_2x, aa_2x]**2)*(SS[k_1x, alpha]**2)", "(SS[aa_2x, nn_2x]**2)*(SS[k_1x, alpha]**2)", 1)]},
+    {"name": "two-exciton widths weight with the transposed element", "kind": "mutant", "rule": "C12-I", "edits": [
+        (_AB12, "                        Wd_a[aa] += (SS[nn, aa]**2)*\\\n", "                        Wd_a[aa] += (SS[aa, nn]**2)*\\\n", 1)]},
+    {"name": "cross term with the factors exchanged", "kind": "twin", "edits": [
+        (_AB12, "(SS[nn_2x, aa_2x]**2)*(SS[k_1x, alpha]**2)", "(SS[k_1x, alpha]**2)*(SS[nn_2x, aa_2x]**2)", 1)]},
+]
